@@ -262,11 +262,11 @@ def run_single(case: dict[str, Any], stats: Stats) -> list[Violation]:
         return out
     if bad:
         if o["ok"]:
-            out.append(Violation("success_reported_on_failure", f"{entry}|{what.split(':')[0]}", f"{entry}: {what} but the caller was told success (kind={o['kind']} ret={o.get('ret')!r})", case, detail))
+            out.append(Violation("success_reported_on_failure", f"{entry}|{':'.join(what.split(':')[:3])}", f"{entry}: {what} but the caller was told success (kind={o['kind']} ret={o.get('ret')!r})", case, detail))
         elif o["announced"] and (inserted or any(not f["role"].startswith("out_") for f in o["fired"])):
             # judged for the statement's own classes (source errors, unreadable inputs) only: an output that
             # fails at its final flush/close after the assembly itself completed is judged on status alone.
-            out.append(Violation("success_announced_on_failure", f"{entry}|{what.split(':')[0]}", f"{entry}: {what}, non-success status {o.get('ret')!r}/{o.get('exc')} but success was announced", case, detail))
+            out.append(Violation("success_announced_on_failure", f"{entry}|{':'.join(what.split(':')[:3])}", f"{entry}: {what}, non-success status {o.get('ret')!r}/{o.get('exc')} but success was announced", case, detail))
     else:
         if not o["ok"]:
             out.append(Violation("failure_reported_on_success", entry, f"{entry}: nothing was wrong (twin assembles) but the caller was told failure: kind={o['kind']} ret={o.get('ret')!r} exc={o.get('exc')}", case, detail))
@@ -385,7 +385,10 @@ def run_case(case: dict[str, Any], stats: Stats) -> list[Violation]:
 
 def sample_of(case: dict[str, Any]) -> Any:
     if case.get("type") == "single":
-        return core.to_jsonable(case)
+        prog, files, _roles = build_files(case)
+        c = {k: v for k, v in case.items() if k != "prog"}
+        c["sources"] = {k: v.decode("utf-8", "replace") for k, v in files.items() if k.endswith(".s")}
+        return core.to_jsonable(c)
     prog = progen.Prog.from_record(case["prog"])
     return {"type": "base", "mapping": prog.mapping, "features": prog.features, "main.s": progen.render(prog.root), "defines": prog.defines}
 
